@@ -371,8 +371,9 @@ namespace avel {
         typename std::enable_if<N < mask4x32f::width, int>::type dummy_variable = 0;
 
         #if defined(AVEL_AVX512VL) || defined(AVEL_AVX10_1)
-        auto mask = b << N;
-        return mask4x32f{__mmask8((decay(m) & ~mask) | mask)};
+        auto bit = std::uint64_t(1) << N;
+        auto mask = std::uint64_t(b) << N;
+        return mask4x32f{__mmask8((decay(m) & ~bit) | mask)};
 
         #elif defined(AVEL_SSE4_1)
         auto mask = avel::bit_cast<float>(b ? -1 : 0);
